@@ -268,7 +268,10 @@ macro_rules! gen_float_mod {
                         if a(0) == 0.0 && x == F::INFINITY { Sup::Ok } else { fin(x >= 0.0) }
                     }
                     "gamma" => {
-                        if (a(0).is_infinite() || a(1).is_infinite()) && x == F::INFINITY {
+                        // documented: an infinite parameter samples +inf; near the upper limits of F
+                        // (k theta > MAX / 2^10) the implementation may overflow to +inf
+                        let near_limit = (a(0) as f64) * (a(1) as f64) > (F::MAX as f64) / 1024.0;
+                        if (a(0).is_infinite() || a(1).is_infinite() || near_limit) && x == F::INFINITY {
                             Sup::Ok
                         } else {
                             fin(x >= 0.0)
